@@ -9,7 +9,10 @@ def resultKeys : List (List Char × List (List Char) × List (List Char)) :=
    (['m','o','l','2'], [['a','t','c','h','a','r','g','e','s'], ['a','t','c','o','o','r','d','s'], ['a','t','f','f','p','a','r','a','m','s'], ['a','t','n','u','m','s'], ['t','i','t','l','e']], [['b','o','n','d','s']]),
    (['p','d','b'], [['a','t','c','o','o','r','d','s'], ['a','t','f','f','p','a','r','a','m','s'], ['a','t','n','u','m','s'], ['e','x','t','r','a'], ['t','i','t','l','e']], [['b','o','n','d','s']]),
    (['c','u','b','e'], [['a','t','c','o','o','r','d','s'], ['a','t','c','o','r','e','n','u','m','s'], ['a','t','n','u','m','s'], ['c','e','l','l','v','e','c','s'], ['c','u','b','e'], ['t','i','t','l','e']], []),
-   (['g','r','o','m','a','c','s'], [['a','t','c','o','o','r','d','s'], ['a','t','f','f','p','a','r','a','m','s'], ['c','e','l','l','v','e','c','s'], ['e','x','t','r','a'], ['t','i','t','l','e']], [])]
+   (['g','r','o','m','a','c','s'], [['a','t','c','o','o','r','d','s'], ['a','t','f','f','p','a','r','a','m','s'], ['c','e','l','l','v','e','c','s'], ['e','x','t','r','a'], ['t','i','t','l','e']], []),
+   (['p','o','s','c','a','r'], [['a','t','c','o','o','r','d','s'], ['a','t','n','u','m','s'], ['c','e','l','l','v','e','c','s'], ['t','i','t','l','e']], []),
+   (['c','h','g','c','a','r'], [['a','t','c','o','o','r','d','s'], ['a','t','n','u','m','s'], ['c','e','l','l','v','e','c','s'], ['c','u','b','e'], ['t','i','t','l','e']], []),
+   (['l','o','c','p','o','t'], [['a','t','c','o','o','r','d','s'], ['a','t','n','u','m','s'], ['c','e','l','l','v','e','c','s'], ['c','u','b','e'], ['t','i','t','l','e']], [])]
 
 /-- `load_many` of these modules: does every `yield` yield, unmodified, a dictionary returned by `load_one(lit, …)`? -/
 def loadManyFrames : List (List Char × Bool) :=
